@@ -1,5 +1,7 @@
 # self-validation battery (see runner.py): mutants must be reported under the named rule, neutral rewrites must stay silent
 MUTANTS = [
+    {'name': 'revert: transposing down', 'revert': 'transposing down moves the step', 'expect': '|DIR-mirror|'},
+    {'name': 'abs() back in the step arithmetic', 'file': 'partitura/utils/music.py', 'old': 'else (x - y) % 7', 'new': 'else abs(x - y) % 7', 'expect': '|MOD-abs|'},
     {'name': 'revert: transposes every note of the copy', 'revert': 'transposes every note of the copy', 'expect': 'COPY'},
     {'name': 'part branch loops over the argument', 'file': 'partitura/utils/music.py', 'old': '        for note in new_score.notes:\n            _transpose_note_inplace(note, interval)', 'new': '        for note in score.notes:\n            _transpose_note_inplace(note, interval)', 'expect': 'COPY'},
     {'name': 'score branch skips tied continuations', 'file': 'partitura/utils/music.py', 'old': '            for note in part.notes:\n                _transpose_note_inplace(note, interval)', 'new': '            for note in part.notes_tied:\n                _transpose_note_inplace(note, interval)', 'expect': 'COVER'},
